@@ -66,7 +66,7 @@ def _case(draw):
         case["_large"] = True
         case["_wide"] = True
         return case
-    case = draw(gen.rec_case(max_obj=5, max_sp=6, costs="coherent", labelled=False))
+    case = draw(gen.rec_case(max_obj=5, max_sp=6, costs="coherent", labelled=False, misleading=True))
     # the ancestors of both trees may be unnamed (library path; results are then read by clades)
     case["_unnamed"] = gen.chance(draw, 1, 4)
     return case
